@@ -85,7 +85,8 @@ Theorem t1_roundtrip_bounded_2x2 : forall style orient a b c d, style = 0 \/ sty
   t1_roundtrip 2 2 orient style 0 [a; b; c; d] = Ok [a; b; c; d].
 Proof.
   intros style orient a b c d Hs Ho Ha Hb Hc Hd. apply rt_ok_spec. pose proof rt_2x2_all as H.
-  rewrite forallb_forall in H. specialize (H style ltac:(cbn; tauto)).
+  rewrite forallb_forall in H. assert (Hin : In style [0; 63]) by (destruct Hs as [->| ->]; cbn; auto).
+  specialize (H style Hin).
   rewrite forallb_forall in H. specialize (H orient (zrange_in 4 orient Ho)).
   rewrite forallb_forall in H. apply H. unfold blocks_2x2, tern.
   assert (Ht : forall t, -1 <= t <= 1 -> In t [-1; 0; 1]) by (intros t Ht; cbn; lia).
@@ -110,7 +111,8 @@ Theorem t1_roundtrip_bounded_1x5 : forall style a b c d e, style = 0 \/ style = 
   t1_roundtrip 1 5 0 style 0 [a; b; c; d; e] = Ok [a; b; c; d; e].
 Proof.
   intros style a b c d e Hs Ha Hb Hc Hd He. apply rt_ok_spec. pose proof rt_1x5_all as H.
-  rewrite forallb_forall in H. specialize (H style ltac:(cbn; tauto)).
+  rewrite forallb_forall in H. assert (Hin : In style [0; 63]) by (destruct Hs as [->| ->]; cbn; auto).
+  specialize (H style Hin).
   rewrite forallb_forall in H. apply H. unfold blocks_1x5, five.
   assert (Ht : forall t, -2 <= t <= 2 -> In t [-2; -1; 0; 1; 2]) by (intros t Ht; cbn; lia).
   apply in_flat_map. exists a. split; [apply Ht; lia|].
